@@ -32,7 +32,9 @@ def pool(chk, mdl):
     # the boundary letters of every range test in case folding and percent decoding (A Z a z 0 9, @ [ ` { / : just outside)
     texts += ["AZaz09+.-://AZaz09-._~%41%5A%61%7A%30%39%2D%2E%5F%7E%40%5B%60%7B%2F%3A@AZaz09.%41%5a%7a/AZ%41%5A%5a?AZ%5A#AZ%7a", "Z://Z", "zZ:/Z", "//Z%5A", "//[vZ.Zz]", "//Zz@Z:1/Z"]
     # a colon anywhere in the segment behind the kept dot, also in first and last position
-    texts += [pre + seg + tail for pre in ("./", "%2E/", "x/.././", "../") for seg in (":b", ":", "b:", ":80", "a:b:c") for tail in ("", "/x", "/..", "/../y")]
+    texts += [pre + seg + tail for pre in ("./", "%2E/", "x/.././", "../") for seg in [":b", ":", "b:", ":80", "a:b:c"] + uris.COLON_SEGS for tail in ("", "/x", "/..", "/../y")]
+    # registered names whose only upper-case letter appears when a triplet with two decimal hex digits is decoded (%41..%59)
+    texts += [pre + h + post for h in ("ex%41mple.com", "%50%59", "a%41", "%5A", "x%4ay", "%41%2F", "1.2.3.%34") for pre in ("//", "s://", "//u@") for post in ("", "/", ":8/a")]
     # absent / empty / non-empty for every component (an empty component stays present and empty); IPv6 spellings of every length
     deg = uris.degenerate_texts() + uris.long_ip6_texts()
     texts += deg if not q else [t for i, t in enumerate(deg) if i % 3 == 0 or len(t) <= 6]
